@@ -146,6 +146,80 @@ def extract(path=CRYSTAL_PY):
     return methods
 
 
+MUTATING_CALLS = ("sort", "reverse", "append", "extend", "insert", "pop", "remove", "clear", "update", "fill", "resize", "setdefault", "popitem")
+
+
+def extract_taints(methods, path=CRYSTAL_PY):
+    """In-place modification of another query's memoised answer: a local name bound to `self.<producer>()` /
+    `getattr(self, "_cache")` (or to an item / attribute of such a name) on which a mutating method is called, or which
+    is the base of an item assignment, augmented assignment or del.  (Annotation of the *elements* of a memoised list
+    through their own attributes, e.g. mol.properties[...] = ..., is not counted: see DESIGN C14.)"""
+    producer = {}
+    for m in methods.values():
+        for c in m.cache_writes & m.cache_reads:
+            producer[m.name] = c
+    tree = ast.parse(open(path).read())
+    cls = next(n for n in tree.body if isinstance(n, ast.ClassDef) and n.name == "Crystal")
+    for fn in cls.body:
+        if not isinstance(fn, ast.FunctionDef) or fn.name not in methods:
+            continue
+        mi = methods[fn.name]
+        mi.cache_taints = set()
+        alias = {}       # local name -> cache
+
+        def source_cache(v):
+            if isinstance(v, ast.Call):
+                f = v.func
+                if isinstance(f, ast.Attribute) and _is_self(f.value) and f.attr in producer and f.attr != fn.name:
+                    return producer[f.attr]
+                if isinstance(f, ast.Name) and f.id == "getattr" and len(v.args) > 1 and _is_self(v.args[0]) and isinstance(v.args[1], ast.Constant) \
+                        and str(v.args[1].value).startswith("_") and producer.get(fn.name) != v.args[1].value:
+                    return v.args[1].value
+            base = v
+            while isinstance(base, (ast.Subscript, ast.Attribute)):
+                base = base.value
+                if isinstance(base, ast.Name) and base.id in alias:
+                    return alias[base.id]
+            if isinstance(v, ast.Name) and v.id in alias:
+                return alias[v.id]
+            return None
+        for _ in range(3):   # propagate through chains of assignments
+            for n in ast.walk(fn):
+                if isinstance(n, ast.Assign) and len(n.targets) == 1:
+                    tg = n.targets[0]
+                    if isinstance(tg, ast.Name):
+                        c = source_cache(n.value)
+                        if c:
+                            alias[tg.id] = c
+                    elif isinstance(tg, ast.Tuple) and isinstance(n.value, ast.Call):
+                        c = source_cache(n.value)
+                        if c:
+                            for e in tg.elts:
+                                if isinstance(e, ast.Name):
+                                    alias[e.id] = c
+        for n in ast.walk(fn):
+            if isinstance(n, ast.Call) and isinstance(n.func, ast.Attribute) and n.func.attr in MUTATING_CALLS:
+                b = n.func.value
+                c = source_cache(b) if not isinstance(b, ast.Name) else alias.get(b.id)
+                if c is None and isinstance(b, ast.Call):
+                    c = source_cache(b)
+                if c:
+                    mi.cache_taints.add(c)
+            if isinstance(n, (ast.Assign, ast.AugAssign, ast.Delete)):
+                targets = n.targets if isinstance(n, (ast.Assign, ast.Delete)) else [n.target]
+                for t in targets:
+                    for tt in (t.elts if isinstance(t, ast.Tuple) else [t]):
+                        if isinstance(n, ast.AugAssign) and isinstance(tt, ast.Name) and tt.id in alias:
+                            mi.cache_taints.add(alias[tt.id])
+                        if isinstance(tt, ast.Subscript):
+                            base = tt.value
+                            while isinstance(base, ast.Subscript):
+                                base = base.value
+                            if isinstance(base, ast.Name) and base.id in alias:
+                                mi.cache_taints.add(alias[base.id])
+    return methods
+
+
 def closure(methods, name, seen=None):
     seen = seen if seen is not None else set()
     if name in seen or name not in methods:
@@ -191,11 +265,12 @@ def build_model(methods):
                             drops_cif = drops_cif or eff["drops_cif"]
             mutators[name] = dict(writes=sorted(sw), drops=sorted(drops & set(caches)), drops_cif=drops_cif, uses=sorted(used))
         elif used or reads_cif:
-            queries[name] = dict(uses=sorted(used), reads_cif=reads_cif, cif_refresh_asym=any(methods[x].cif_refresh_asym for x in cl))
+            taints = set().union(*[getattr(methods[x], "cache_taints", set()) for x in cl]) & set(caches)
+            queries[name] = dict(uses=sorted(used), reads_cif=reads_cif, cif_refresh_asym=any(methods[x].cif_refresh_asym for x in cl), taints=sorted(taints))
     return caches, deps, mutators, queries
 
 
-def search(caches, deps, mutators, queries, k, inductive=False, block=()):
+def search(caches, deps, mutators, queries, k, inductive=False, block=(), only=None):
     """z3 search for a history of length k ending in a stale answer.  Returns list of op names or None."""
     ops = sorted(queries) + sorted(mutators) + ["deepcopy"]
     nq, nm = len(queries), len(mutators)
@@ -234,6 +309,8 @@ def search(caches, deps, mutators, queries, k, inductive=False, block=()):
                         eff[c] = (z3.BoolVal(True), z3.If(pres[c][i], stamp[c][i], new_stamp))
                 for c in caches + ["cif_data"]:
                     pn, sn = eff.get(c, (pres[c][i], stamp[c][i]))
+                    if c in q.get("taints", ()):
+                        sn = z3.IntVal(-1)      # modified in place by this query: no longer the answer computed from the state
                     s.add(z3.Implies(here, z3.And(pres[c][i + 1] == pn, stamp[c][i + 1] == sn)))
                 s.add(z3.Implies(here, z3.And(ver[i + 1] == ver[i], vcs[i + 1] == vcs[i])))
                 bad = [eff[c][1] < ver[i] for c in eff]
@@ -256,6 +333,9 @@ def search(caches, deps, mutators, queries, k, inductive=False, block=()):
                 for c in caches + ["cif_data"]:
                     s.add(z3.Implies(here, z3.And(pres[c][i + 1] == pres[c][i], stamp[c][i + 1] == stamp[c][i])))
     s.add(z3.Or(stale))
+    if only is not None:     # histories made of operations the replay harness can execute
+        for i in range(k):
+            s.add(z3.Or([op[i] == j for j, name in enumerate(ops) if name in only]))
     for b in block:
         s.add(z3.Not(z3.And([op[i] == ops.index(nm_) for i, nm_ in enumerate(b) if i < k and nm_ in ops])))
     r = str(s.check())
@@ -362,19 +442,39 @@ def _cif_numbers(text):
     return toks
 
 
+def _cocrystal():
+    """P-1 co-crystal built in memory: HF listed first with F given by its inverted image (no HF molecule is generated by
+    the identity alone), then a complete water molecule -- the order of the unit-cell molecules by component differs from
+    their order by share of identity-generated atoms"""
+    from chmpy.crystal import Crystal, UnitCell, SpaceGroup, AsymmetricUnit
+    from chmpy.core.element import Element
+    uc = UnitCell.from_lengths_and_angles([11.7, 14.2, 16.1], [np.radians(84.0), np.radians(97.0), np.radians(103.0)])
+    inv = np.linalg.inv(np.asarray(uc.direct, float))
+    hf = np.array([[0, 0, 0], [0.92, 0, 0]]) @ inv + np.array([0.62, 0.33, 0.71])
+    hf[1] = (-hf[1]) % 1.0
+    w = np.array([[0, 0, 0], [0.96, 0, 0], [-0.24, 0.93, 0]]) @ inv + np.array([0.17, 0.21, 0.23])
+    els = [Element["H"], Element["F"], Element["O"], Element["H"], Element["H"]]
+    return Crystal(uc, SpaceGroup(2), AsymmetricUnit(els, np.vstack([hf, w])))
+
+
 def run_history(seq, structure="r3c", from_file=True):
     """Execute the history on a real crystal; after every step compare each query's answer with a fresh crystal's.
     Returns list of discrepancies."""
     from chmpy.crystal import Crystal
-    path = {"r3c": "/repo/src/chmpy/tests/test_files/r3c_example.cif"}[structure]
-    c = Crystal.load(path)
-    if not from_file:
-        c = _fresh(c)
-        c.properties["titl"] = "mem"
+    if structure == "cocrystal":
+        c = _cocrystal()
+    else:
+        path = {"r3c": "/repo/src/chmpy/tests/test_files/r3c_example.cif"}[structure]
+        c = Crystal.load(path)
+        if not from_file:
+            c = _fresh(c)
+            c.properties["titl"] = "mem"
     bad = []
     for step, name in enumerate(seq):
         if name == "deepcopy":
             c = copy.deepcopy(c)
+            continue
+        if structure == "cocrystal" and (name.startswith("choose_trigonal_lattice") or name == "normalize_hydrogen_bondlengths"):
             continue
         if name.startswith("choose_trigonal_lattice"):
             before = c.space_group.choice
@@ -389,8 +489,11 @@ def run_history(seq, structure="r3c", from_file=True):
         state_before = (np.array(c.unit_cell.direct, float).copy(), c.space_group.choice, np.array(c.asymmetric_unit.positions, float).copy())
         f = _fresh(c)
         try:
-            got, want = getattr(c, name)(**kw), getattr(f, name)(**kw)
-            again = getattr(c, name)(**kw)
+            def ask(obj):
+                v = getattr(obj, name)
+                return v(**kw) if callable(v) else v        # density is a property
+            got, want = ask(c), ask(f)
+            again = ask(c)
         except Exception as e:
             bad.append("step %d %s raises %s: %s" % (step, name, type(e).__name__, e))
             continue
@@ -404,7 +507,10 @@ def run_history(seq, structure="r3c", from_file=True):
 
 
 def replay_history(data):
-    bad = run_history(data["history"], data.get("structure", "r3c"), data.get("from_file", True))
+    bad = []
+    for st in data.get("structures") or [data.get("structure", "r3c")]:
+        b = run_history(data["history"], st, data.get("from_file", True))
+        bad += ["[%s] %s" % (st, x) for x in b]
     return bool(bad), bad
 
 
@@ -414,7 +520,7 @@ REPLAY = {"hist": replay_history}
 # ------------------------------------------------------------------------------ run
 def run(ctx):
     ctx.encode_file(CRYSTAL_PY, "crystal.py (AST of class Crystal: caches, state writes, call graph)")
-    methods = extract()
+    methods = extract_taints(extract())
     caches, deps, mutators, queries = build_model(methods)
     # keep the queries that can be replayed; every cache-using method stays in the model
     ctx.bound("histories of length <= %d over %d cache-using queries, %d state-changing operations and deepcopy; plus the one-step inductive invariant (all lengths, if it holds)"
@@ -439,11 +545,14 @@ def run(ctx):
     ctx.record("inductive: one arbitrary operation from any state where every present cache is current, followed by one query, never answers from an older cache",
                {"unsat": "holds", "sat": "counterexample", "unknown": "unknown"}[r], seconds=time.time() - t0, nontrivial=True, solver="z3", sample=seq)
     reported = set()
+    executable = set(QUERY_ARGS) | set(mutators) | {"deepcopy"}
     for k in range(2, kmax + 1):
         block = []
         for attempt in range(12 if ctx.tier == "quick" else 40):
             t0 = time.time()
-            r, seq, cif = search(caches, deps, mutators, queries, k, block=block)
+            r, seq, cif = search(caches, deps, mutators, queries, k, block=block, only=executable)
+            if r == "unsat" and not block:
+                r, seq, cif = search(caches, deps, mutators, queries, k, block=block)     # any operation, also those the replay cannot run
             ctx.record("bmc: history of length %d ending in a stale answer%s" % (k, "" if not block else " (excluding %d earlier)" % len(block)),
                        {"unsat": "holds", "sat": "counterexample", "unknown": "unknown"}[r], seconds=time.time() - t0, nontrivial=True, solver="z3", sample=seq)
             if r != "sat":
@@ -453,10 +562,18 @@ def run(ctx):
             last = seq[-1]
             stale_kind = "cif_data" if (queries.get(last, {}).get("reads_cif") and cif) else "caches"
             key = "hist:%s:%s" % (mut, stale_kind)
+            tainter = next((s_ for s_ in seq if queries.get(s_, {}).get("taints")), None) if mut is None else None
+            if tainter:
+                key = "hist:alias:%s" % tainter
             if key in reported:
                 continue
-            bad = run_history(seq, from_file=bool(cif) or stale_kind == "cif_data")
-            if bad:
+            structures = ["cocrystal", "r3c"] if tainter else ["r3c"]
+            bad = [b for st in structures for b in run_history(seq, st, from_file=bool(cif) or stale_kind == "cif_data")]
+            if bad and tainter:
+                reported.add(key)
+                ctx.violation(key, "query %s modifies the memoised answer of another query in place (%s): history %s" % (tainter, ", ".join(queries[tainter]["taints"]), " -> ".join(seq)),
+                              {"history": seq, "from_file": False, "structures": structures}, replay_history)
+            elif bad:
                 reported.add(key)
                 ctx.violation(key, "after %s, %s answers from data computed before the change: history %s" % (mut, last, " -> ".join(seq)),
                               {"history": seq, "from_file": bool(cif) or stale_kind == "cif_data"}, replay_history)
